@@ -41,11 +41,14 @@ func callerFuncs(p *core.Prog, fn *ssa.Function) []*ssa.Function {
 	var out []*ssa.Function
 	seen := map[*ssa.Function]bool{}
 	for _, f := range p.ModFns {
+		if core.WrapperOf(fn) == f {
+			continue // the thin wrapper fn is known by
+		}
 		for _, b := range f.Blocks {
 			for _, in := range b.Instrs {
 				switch x := in.(type) {
 				case ssa.CallInstruction:
-					if x.Common().StaticCallee() == fn && !seen[f] {
+					if core.SameFn(core.Callee(x.Common()), fn) && !seen[f] {
 						seen[f] = true
 						out = append(out, f)
 					}
